@@ -88,7 +88,9 @@ func New(sig int64, exp int) Decimal {
 		sig *= -1
 	}
 
-	if exp < minUnbiasedExponent+19 {
+	// sig has at most 19 digits, so below this exponent the value is less than
+	// a tenth of the smallest subnormal.
+	if exp < minUnbiasedExponent-20 {
 		return zero(neg)
 	}
 
